@@ -1,12 +1,12 @@
 #!/bin/bash
-# usage: one.sh <mutant-id> [Cnn|all ...] : applies sweep mutant <id> (from /tmp/mutsweep/muts.jsonl or $MUTS) to a scratch copy of
+# usage: one.sh <mutant-id> [Cnn|all ...] : applies sweep mutant <id> (from /verif/mutsweep/muts.jsonl or $MUTS) to a scratch copy of
 # /repo, shows the edit, runs the listed checks (default all) and removes the copy.
 export GOFLAGS=-mod=mod GOPROXY=off GOSUMDB=off GOTOOLCHAIN=local; unset GOWORK
 id=$1; shift
 props=${@:-all}
 d=$(mktemp -d /tmp/one-XXXXXX); trap 'rm -rf "$d"' EXIT
 rsync -a --exclude .git /repo/ "$d/"
-python3 - "$id" "$d" "${MUTS:-/tmp/mutsweep/muts.jsonl}" <<'PY' || exit 3
+python3 - "$id" "$d" "${MUTS:-/verif/mutsweep/muts.jsonl}" <<'PY' || exit 3
 import json,sys
 id=int(sys.argv[1]); d=sys.argv[2]
 for l in open(sys.argv[3]):
